@@ -14,7 +14,10 @@ PROP = dict(
          "qualified member function T.g(x, ..), struct constructor, qualified and unqualified enum variant constructor); "
          "all well-formed shapes always, ill-formed shapes completely for free functions of arity <= 2 (quick) / <= 3 "
          "(thorough) and a seeded fraction otherwise; each call compiled and run by the real front end and VM with "
-         "side-effecting argument expressions; distinct = distinct (form, parameter list, shape); non-trivial = the call "
+         "side-effecting argument expressions; plus arities 31, 32 and 33 (above CallData::MAX_NARGS the call goes through a function "
+         "object) with defaults on parameter 5 and on the last ten, 10 shapes each (all positional, defaults omitted, all by name "
+         "reversed, positional prefix + reversed names, holes filled by defaults, surplus, missing, name+position, unknown name, "
+         "positional after named) for all 7 callee forms; 5 fixed probes; distinct = distinct (form, parameter list, shape); non-trivial = the call "
          "uses a name, omits a parameter or is rejected",
     nontrivial=lambda req, imp: imp.startswith("diag") or any(w not in ("_", "-") for w in req.split()[3].split(",")) or "d" in imp.split("|")[0],
     trusted_base=COMMON_TB + [
@@ -23,6 +26,9 @@ PROP = dict(
         "utils::IdSet (insert/get_id/index) and HashSet/HashMap are assumed to be the finite set/map abstractions of the model",
     ],
     assumptions=[
+        "fixed probes (harness/probes_bg8, Rust-side oracle): a 32-argument positional call, a payload variant named without "
+        "arguments (D87: diagnostic), a default on an interface-implementation method (D102: must behave like any named function), "
+        "a default on a lambda parameter (a diagnostic, never a crash), match expressions inside default values",
         "parameter names of one callee are pairwise distinct (hypothesis of the theorems; the generator only produces such lists)",
         "default values are literals (a default that mentions a name is outside the property's quantifier; see D30)",
     ],
